@@ -261,6 +261,17 @@ def cases(rng, which, count):
                 rng.shuffle(groups)
                 fl = [x for g in groups for x in g]
                 yield Case("cli_lib", [esc(fasta(pr)), "compute", "pssm"] + fl, True, "cli-pssm")
+            elif w == "summary":
+                # `stats` without sub-command: length, rows, alleles per site (4 decimals), variable sites, character
+                # table (6 decimals), alphabet; columns of gaps / specials only, mixed case, 1-16 rows, both alphabets
+                nr = rng.choice([1, 2, 3, 4, 5, 7, 16])
+                if rng.random() < 0.25:
+                    pools = ["ARNDCQEGHILKMFPSTWYV", "ARNDCQEGHILKMFPSTWYV-X*", "AR", "-", "arndEFILPQ*", "EO", "J1"]
+                else:
+                    pools = ["ACGT", "ACGT-", "ACGTacgtN-", "A", "AC", "-", "-.*", "ACGTRY", "Aa", "*", "."]
+                cols = ["".join(rng.choice(c) for _ in range(nr)) for c in (rng.choice(pools) for _ in range(rng.randint(1, 14)))]
+                sr = [("s%d" % i, "".join(c[i] for c in cols)) for i in range(nr)]
+                yield Case("cli_lib", [esc(fasta(sr)), "stats"], True, "cli-stats-summary")
             elif w == "consensus":
                 fl = [f for f in ("--ignore-gaps", "--ignore-n") if rng.random() < 0.4]
                 yield Case("cli_lib", [st, "consensus"] + fl, True, "cli-consensus")
